@@ -651,3 +651,33 @@ Print Assumptions c02_chunked_no_cl.
 Print Assumptions c02_call_with_body_step_any.
 Print Assumptions c02_parse_back_nonvacuous.
 Print Assumptions c02_entry_nonvacuous.
+
+(* ================================================================== Flow<SendRequest>::headers_map *)
+(** The second public entry point that runs the request analysis (proofs/HeadersMap.v).  It reports, as a map built with
+    [HeaderMap::insert], the same effective header list the head writer emits; it changes nothing; analysis is idempotent, so
+    the head written afterwards is the one that would have been written without the call. *)
+From Hoot Require Import Script.
+From Hoot.proofs Require Import HeadersMap.
+Theorem c02_headers_map_pure : forall s, fst (step s OHeadersMap) = s.
+Proof. exact headers_map_pure. Qed.
+Theorem c02_headers_map_reports : forall s f,
+  s_obj s = ObFlow TSendRequest f ->
+  snd (step s OHeadersMap) =
+  match analyze_request (i_call f) with
+  | Ok c => obs_headers (map_of_headers (am_headers (c_req c)))
+  | Err e => obs_err e
+  | Panic _ => obs_panic
+  end.
+Proof. exact headers_map_obs. Qed.
+Theorem c02_analysis_idempotent : forall c c1, analyze_request c = Ok c1 -> analyze_request c1 = Ok c1.
+Proof. exact analyze_request_idem. Qed.
+(** The map holds, for every name, the value of that name's LAST occurrence among the effective headers (HeaderMap::insert), and
+    nothing for a name that does not occur. *)
+Theorem c02_headers_map_last_value : forall hs k,
+  hm_get (fold_left (fun m h => hm_insert m (fst h) (snd h)) hs []) k =
+  fold_left (fun acc h => if beq_bytes k (fst h) then Some (snd h) else acc) hs None.
+Proof. exact map_of_headers_last. Qed.
+Print Assumptions c02_headers_map_last_value.
+Print Assumptions c02_headers_map_pure.
+Print Assumptions c02_headers_map_reports.
+Print Assumptions c02_analysis_idempotent.
